@@ -44,7 +44,7 @@ CHECKS = {
             "quick": {"shards": 1, "timeout": 600}, "thorough": {"shards": 16, "timeout": 2400}},
     "C06": {"parts": [{"pkg": "wire", "run": "^TestC06"}, {"pkg": "node", "run": "^TestC06"}],
             "quick": {"shards": 1, "timeout": 600}, "thorough": {"shards": 16, "timeout": 2400}},
-    "C07": {"pkg": "wire", "run": "^TestC07",
+    "C07": {"parts": [{"pkg": "wire", "run": "^TestC07"}, {"pkg": "node", "run": "^TestC07"}],
             "quick": {"shards": 1, "timeout": 600}, "thorough": {"shards": 16, "timeout": 2400}},
     "C08": {"parts": [{"pkg": "wire", "run": "^TestC08"}, {"pkg": "node", "run": "^TestC08"}],
             "quick": {"shards": 1, "timeout": 600}, "thorough": {"shards": 16, "timeout": 2400}},
